@@ -5,6 +5,11 @@
              lanes, strides {0,1,2,3,4,5,7}, permuted / repeated / spaced index lists over small arenas: footprint inside
              the exact extent, the last extent cell designated, the cells of distinct result elements pairwise distinct
              exactly for strides >= width / index lists spaced by >= width, contig = stride width, a constant is one element.
+   alias:    every (result, operand) descriptor pair of a row whose result may be aliased to that operand (Aliasable), arrays:
+             all stride / index-list combinations: when the operand is addressed exactly like the result (SameCells) and
+             the result elements are distinct, both have the same footprint and extent and the result cells of element k
+             meet operand cells of element k only -- so "element k of the result = Expected on the pre-call element k" is
+             well defined for in-place calls; SameCells holds exactly for equal strides (contig = stride 3).
    field:    over the 13-element field (GL with Phi = 4): for every a in F_13^3 and b from a generating subset (BSub = TRUE:
              the monomials, all-ones, a few mixed elements and their negatives; FALSE: every element with b0 in {0,1,12}
              or b1 = b2) the formulas the code uses -- the A..G Karatsuba forms of the _batch and of the _avx/_avx512
@@ -12,7 +17,7 @@
              shapes -- equal the scalar definition Expected(op, ...) with base operands embedded as (s, 0, 0). *)
 EXTENDS GL, Overloads16, FiniteSets, Sequences
 CONSTANT BSub
-VARIABLES ph, od, fa, fb
+VARIABLES ph, od, al, fa, fb
 INSTANCE Layout16 WITH FA <- FAdd, FS <- FSub, FM <- FMul, FZero <- 0
 
 F3 == (0..(P - 1)) \X (0..(P - 1)) \X (0..(P - 1))
@@ -31,15 +36,24 @@ Cfgs(d, n) == CASE d.kind = "stride" -> {[d |-> d, n |-> n, s |-> s, idx |-> <<>
 BGen == {<<1,0,0>>, <<0,1,0>>, <<0,0,1>>, <<1,1,1>>, <<P-1,0,0>>, <<0,P-1,0>>, <<0,0,P-1>>, <<2,5,7>>, <<P-1,P-1,P-1>>, <<3,0,11>>, <<0,6,6>>, <<0,0,0>>}
 Bs == IF BSub THEN BGen ELSE {v \in F3 : v[1] \in {0, 1, P - 1} \/ v[2] = v[3]}
 
-Init == ph = "start" /\ od = NoOp /\ fa = Zero3 /\ fb = Zero3
-ChooseOperand == /\ ph = "start" /\ ph' = "operand" /\ UNCHANGED <<fa, fb>>
+NoAl == [c |-> NoOp, x |-> NoOp]
+Init == ph = "start" /\ od = NoOp /\ al = NoAl /\ fa = Zero3 /\ fb = Zero3
+ChooseOperand == /\ ph = "start" /\ ph' = "operand" /\ UNCHANGED <<al, fa, fb>>
                  /\ \E d \in AllDescs, n \in {4, 8} : od' \in Cfgs(d, n)
-ChooseA == ph = "start" /\ ph' = "fieldA" /\ fa' \in F3 /\ UNCHANGED <<od, fb>>
-ChooseB == ph = "fieldA" /\ ph' = "field" /\ fb' \in Bs /\ UNCHANGED <<od, fa>>
-Next == ChooseOperand \/ ChooseA \/ ChooseB
+ChooseAlias == /\ ph = "start" /\ ph' = "alias" /\ UNCHANGED <<od, fa, fb>>
+               /\ \E id \in Ids16, m \in {"a", "b"} :
+                    LET r == Table16[id] IN
+                    /\ m \in AliasModes(r) /\ InMem(r.c)
+                    /\ \E cc \in Cfgs(r.c, r.lanes), xc \in Cfgs(r[m], r.lanes) : al' = [c |-> cc, x |-> xc]
+ChooseA == ph = "start" /\ ph' = "fieldA" /\ fa' \in F3 /\ UNCHANGED <<od, al, fb>>
+ChooseB == ph = "fieldA" /\ ph' = "field" /\ fb' \in Bs /\ UNCHANGED <<od, al, fa>>
+Next == ChooseOperand \/ ChooseAlias \/ ChooseA \/ ChooseB
 
 TableOk == ph = "start" => /\ \A id \in Ids16 : RowOk(Table16[id])
                            /\ Cardinality(Ids16) = 156
+                           /\ \A id \in Ids16 : \A m \in AliasModes(Table16[id]) \ {"none"} :
+                                 Table16[id][m].elem = "ext" /\ (InMem(Table16[id].c) = InMem(Table16[id][m]))
+                           /\ Cardinality({id \in Ids16 : AliasModes(Table16[id]) # {"none"}}) = 90
 Gap(ix, w) == \A i, j \in DOMAIN ix : i # j => (ix[i] - ix[j] >= w \/ ix[j] - ix[i] >= w)
 OperandInv ==
   ph = "operand" =>
@@ -56,6 +70,20 @@ OperandInv ==
        /\ (d.kind = "const" => F = (IF d.elem = "ext" THEN {0, 1, 2} ELSE {}))
        /\ (d.kind \in {"regs", "regs3", "reg"} => F = {} /\ E = 0)
        /\ (InMem(d) => \A k \in 0..(n - 1) : Cardinality(ElemCells(d, k, s, ix)) = w /\ ElemCells(d, k, s, ix) \subseteq F)
+AliasInv ==
+  ph = "alias" =>
+    LET c == al.c  x == al.x  n == c.n
+        same == SameCells(c.d, x.d, n, c.s, c.idx, x.s, x.idx)
+    IN /\ (same /\ Disjoint(c.d, n, c.s, c.idx)) =>
+            /\ Footprint(c.d, n, c.s, c.idx) = Footprint(x.d, n, x.s, x.idx)
+            /\ Extent(c.d, n, c.s, c.idx) = Extent(x.d, n, x.s, x.idx)
+            /\ \A j, k \in 0..(n - 1) : j # k => ElemCells(c.d, k, c.s, c.idx) \cap ElemCells(x.d, j, x.s, x.idx) = {}
+            /\ \A k \in 0..(n - 1) : ElemCells(c.d, k, c.s, c.idx) = ElemCells(x.d, k, x.s, x.idx)
+       /\ (c.d.kind = "stride" /\ x.d.kind = "stride" => same = (c.s = x.s))
+       /\ (c.d.kind = "contig" /\ x.d.kind = "stride" => same = (x.s = 3))
+       /\ (c.d.kind = "stride" /\ x.d.kind = "contig" => same = (c.s = 3))
+       /\ (c.d.kind = "contig" /\ x.d.kind = "contig" => same)
+       /\ (c.d.kind = "index" /\ x.d.kind = "index" => same = (c.idx = x.idx))
 Ext == [elem |-> "ext", kind |-> "contig", param |-> ""]
 Bas == [elem |-> "base", kind |-> "contig", param |-> ""]
 FieldInv ==
